@@ -55,7 +55,7 @@ struct Answer { bool ok; vector<uint8_t> data; };
 class Line : public DiscoveryTargetInterface {
  public:
   enum Kind { NONE, UNMUTE, MUTE, BRANCH };
-  Line() : pending(NONE), p_uid(0), p_lo(0), p_hi(0), m_mute_cb(NULL), m_unmute_cb(NULL), m_branch_cb(NULL) {}
+  Line() : pending(NONE), p_uid(0), p_lo(0), p_hi(0), nonnull_silence(false), m_mute_cb(NULL), m_unmute_cb(NULL), m_branch_cb(NULL) {}
   void MuteDevice(const UID &target, MuteDeviceCallback *cb) {
     pending = MUTE; p_uid = uid_n(target); m_mute_cb = cb;
   }
@@ -78,8 +78,11 @@ class Line : public DiscoveryTargetInterface {
     } else if (k == MUTE) {
       m_mute_cb->Run(a.ok);
     } else if (k == BRANCH) {
-      if (a.data.empty()) {
+      if (a.data.empty() && !nonnull_silence) {
         m_branch_cb->Run(NULL, 0);
+      } else if (a.data.empty()) {
+        vh::Exact e(a.data);   // "no reply" as (pointer to a zero-size heap block, 0)
+        m_branch_cb->Run(e.p, 0);
       } else {
         vh::Exact e(a.data);   // exact-size heap copy: ASan sees any over-read of the reply
         m_branch_cb->Run(e.p, e.n);
@@ -88,6 +91,7 @@ class Line : public DiscoveryTargetInterface {
   }
   Kind pending;
   u64 p_uid, p_lo, p_hi;
+  bool nonnull_silence;   // how the next silent DUB is reported
  private:
   MuteDeviceCallback *m_mute_cb;
   UnMuteDeviceCallback *m_unmute_cb;
@@ -243,6 +247,7 @@ static string handle(const string &payload) {
         } else {
           a.ok = false;
         }
+        line.nonnull_silence = ((n + payload.size()) % 3) == 0;
         line.Deliver(a);
       }
       bool done = line.pending == Line::NONE;
@@ -270,9 +275,10 @@ struct Session {
   DiscoveryAgent *agent;
   unsigned next_id;
   bool ignore;
+  bool dying;
   vector<string> log;     // calls, starts, aborts, events in order
   vector<string> events;
-  Session() : agent(NULL), next_id(0), ignore(false) {}
+  Session() : agent(NULL), next_id(0), ignore(false), dying(false) {}
   void Start(bool inc, char act) {
     StartCb *cb = new StartCb();   // kept alive for the whole case (a seeded change may never run it)
     cb->sess = this; cb->id = next_id++; cb->act = act;
@@ -293,6 +299,7 @@ void StartCb::Done(bool st, const UIDSet &set) {
   if (first) o << "none";
   sess->events.push_back(o.str());
   sess->log.push_back(o.str());
+  if (sess->dying) return;
   if (act == 'f') sess->Start(false, 'n');
   else if (act == 'i') sess->Start(true, 'n');
 }
@@ -304,8 +311,8 @@ static string handle_h(const vector<string> &tok) {
   vector<Resp> pop;
   u64 used = 0;
   {
-    DiscoveryAgent agent(&line);
-    sess.agent = &agent;
+    DiscoveryAgent *agent = new DiscoveryAgent(&line);
+    sess.agent = agent;
     for (size_t i = 2; i < tok.size(); i++) {
       const string &op = tok[i];
       if (op[0] == 'S') {
@@ -322,9 +329,15 @@ static string handle_h(const vector<string> &tok) {
       } else if (op[0] == 'A') {
         sess.log.push_back("A");
         line.pending = Line::NONE;   // the line drops the request in flight
-        Line::Kind keep = line.pending;
-        agent.Abort();
-        (void) keep;
+        agent->Abort();
+      } else if (op[0] == 'D') {
+        sess.log.push_back("D");
+        line.pending = Line::NONE;   // the line drops the request in flight
+        sess.dying = true;           // a callback run by the destructor does not start another run
+        delete agent;
+        sess.dying = false;
+        agent = new DiscoveryAgent(&line);
+        sess.agent = agent;
       } else if (op[0] == 'X' || op[0] == 'R') {
         u64 k = 1;
         if (op[0] == 'R') k = (op == "R*") ? ~0ULL : vh::num(op.substr(1));
@@ -332,11 +345,13 @@ static string handle_h(const vector<string> &tok) {
           used++;
           sess.log.push_back(line.Describe());
           Answer a = (op[0] == 'X') ? ParseTok(op.substr(2)) : PopAnswer(&pop, line);
+          line.nonnull_silence = ((used + tok.size()) % 3) == 0;
           line.Deliver(a);
         }
       }
     }
     sess.ignore = true;
+    delete agent;
   }
   Hash h;
   std::ostringstream log, ev;
